@@ -99,9 +99,9 @@ class Taint:
                 out += self.leaks(x, depth + 1)
             return out
         k = id(t)
-        if k in self.memo:
-            return self.memo[k]
-        self.memo[k] = []
+        if k in self.memo and self.memo[k][0] is t:
+            return self.memo[k][1]
+        self.memo[k] = (t, [])
         tag = t[0]
         out = []
         if self.used_keys and _strip_index(t) in self.used_keys:
@@ -154,7 +154,7 @@ class Taint:
             for c in t[1:]:
                 if isinstance(c, (tuple, frozenset)):
                     out += self.leaks(c, depth + 1)
-        self.memo[k] = out
+        self.memo[k] = (t, out)
         return out
 
     def _mask(self, t):
